@@ -250,6 +250,19 @@ def directed():
                   [R('reset'), R('c1', 'rin')]])
   D.append(('reset-tied-port', top, [{'path': ['c0', 'd0[0]'], 'new': acc(9205), 'mode': 'cls'}, {'path': ['c1'], 'new': acc(9206), 'mode': 'obj'},
                                      {'path': ['c0', 'd0[1]'], 'new': acc(9207), 'mode': 'obj'}, {'path': ['c0', 'd0[0]'], 'new': acc(9208), 'mode': 'obj'}], {}))
+  # 20. a structural wrapper (no update block of its own) that orders its children's blocks with U(x) < U(y), in a list at
+  #     depth 2, replaced four times in a row: other order, no constraint, same-named constraint again, plain leaf
+  def pair(uid, order):
+    return _c(uid, 1, 2, items=[_k('c0', plain_leaf(uid + 1)), _k('c1', plain_leaf(uid + 2))],
+              conns=[[R('c0', 'in0'), R('in0')], [R('c1', 'in0'), R('in0')], [R('out0'), R('c0', 'out0')], [R('out1'), R('c1', 'out0')]],
+              uux=[] if order is None else [[R(order[0], 'p0'), R(order[1], 'p0')]])
+  mid = _c(9211, 1, 1, items=[_k('d0[0]', pair(9212, ('c0', 'c1'))), _k('d0[1]', pair(9215, ('c1', 'c0'))),
+                              _b('b0', 'comb', [R('d0[0]', 'out0'), R('d0[0]', 'out1'), R('d0[1]', 'out1')], [R('out0')])],
+           conns=[[R('d0[0]', 'in0'), R('in0')], [R('d0[1]', 'in0'), R('in0')]])
+  top = _c(9210, 1, 1, items=[_k('c0', mid)], conns=[[R('c0', 'in0'), R('in0')], [R('out0'), R('c0', 'out0')]])
+  D.append(('structural-wrapper-UU', top,
+            [{'path': ['c0', 'd0[0]'], 'new': pair(9220, ('c1', 'c0')), 'mode': 'cls'}, {'path': ['c0', 'd0[0]'], 'new': pair(9223, None), 'mode': 'obj'},
+             {'path': ['c0', 'd0[0]'], 'new': pair(9226, ('c0', 'c1')), 'mode': 'cls'}, {'path': ['c0', 'd0[0]'], 'new': plain_leaf(9229, 1, 2), 'mode': 'obj'}], {}))
   return D
 
 # ----------------------------------------------------------------------------------------------- one case
@@ -589,18 +602,20 @@ def pinned(tree, p):
 
 def random_case(rng, g, idx):
   spec = g.spec(rng.randint(1, 3), rng.randint(1, 2), rng.choice([1, 2, 2, 3]))
-  while not U.paths(spec):
+  while not [p for p in U.paths(spec) if not pinned(spec, p)]:
     spec = g.spec(rng.randint(1, 3), rng.randint(1, 2), rng.choice([1, 2, 2, 3]))
   cur = spec
   steps = []
   for _ in range(rng.choice([1, 1, 2, 2, 3, 4])):
     ps = [p for p in U.paths(cur) if not pinned(cur, p)]
     if not ps: break
-    phs = U.placeholders(cur)
+    phs = [p for p in U.placeholders(cur) if p in ps]
+    again = steps and tuple(steps[-1]['path']) in ps
     deep = [p for p in ps if len(p) >= 2 and '[' in p[-1]]       # list elements whose parent is not the top
-    if deep and rng.random() < 0.3: path = list(rng.choice(deep))
+    if again and steps[-1]['new'].get('uux') and rng.random() < 0.6: path = steps[-1]['path']   # same slot again
+    elif deep and rng.random() < 0.3: path = list(rng.choice(deep))
     elif phs and rng.random() < 0.6: path = list(rng.choice(phs))
-    elif steps and rng.random() < 0.25 and tuple(steps[-1]['path']) in ps: path = steps[-1]['path']
+    elif again and rng.random() < 0.25: path = steps[-1]['path']
     else: path = list(rng.choice(ps))
     old = U.sub(cur, path)
     mode = rng.choice(['cls', 'obj'])
